@@ -152,9 +152,18 @@ def tlc_only(ctx, tag, H, modes, kinds, **kw):
 
 
 def run(ctx):
-    rp = vlib.compile_harness(os.path.join(vlib.VERIF, "harness/shared_future_replay.cpp"),
-                              "shared_future_replay" + ("" if ctx.quick else "_asan"), sanitize=not ctx.quick)
-    env = None if ctx.quick else {"ASAN_OPTIONS": "detect_leaks=1", "UBSAN_OPTIONS": "halt_on_error=1:print_stacktrace=1"}
+    from concurrent.futures import ThreadPoolExecutor
+    with ThreadPoolExecutor(max_workers=2) as ex:
+        f1 = ex.submit(vlib.compile_harness, os.path.join(vlib.VERIF, "harness/shared_future_replay.cpp"),
+                       "shared_future_replay", sanitize=not ctx.quick)
+        # quick: a second, sanitized build for the configurations in which the last reference is dropped during the walk
+        f2 = ex.submit(vlib.compile_harness, os.path.join(vlib.VERIF, "harness/shared_future_replay_asan.cpp"),
+                       "shared_future_replay_asan", sanitize=True) if ctx.quick else None
+        rp = f1.result()
+        rp_asan = f2.result() if f2 else rp
+    asan_env = {"ASAN_OPTIONS": "detect_leaks=0", "UBSAN_OPTIONS": "halt_on_error=1:print_stacktrace=1"}
+    # leaks are found by the replayer's own accounting (allocation balance, instance counters, state freed at the end)
+    env = None if ctx.quick else asan_env
     h1, h2 = ["h1"], ["h1", "h2"]
     broken_variant_must_fail(ctx, "v1", "notracer", "AliveWhilePending")
     broken_variant_must_fail(ctx, "v2", "noreset", "AtEnd")
@@ -172,6 +181,9 @@ def run(ctx):
         run_cfg(ctx, rp, "c2", h2, ["retfut", "async"], ["val"], co=["h2"], po=["h1"], copies=1, handles=1)
         run_cfg(ctx, rp, "c3", h2, ["fn"], ["val"], cb=["h1"], bl=["h2"], copies=2, handles=1)
         run_cfg(ctx, rp, "c4", h2, [modes[-1]], ["val"], co=["h1"], bl=["h2"], po=["h2"], copies=2, handles=2, max_paths=1500)
+        # sanitized replays (no weak_ptr probe): a touch of the state after the last reference is gone aborts the replayer
+        run_cfg(ctx, rp_asan, "a1", h1, ["fn", "late", "retfut", "async"], ["val", "dtor"], co=h1, cb=h1, copies=1, handles=1, env=asan_env)
+        run_cfg(ctx, rp_asan, "a2", h2, ["fn"], ["val"], co=["h1"], bl=["h2"], copies=1, handles=1, env=asan_env)
     else:
         # (the largest graphs are replayed by an edge cover capped at max_paths; the others completely)
         run_cfg(ctx, rp, "s1", h1, modes, ALL_KINDS, co=h1, bl=h1, cb=h1, po=h1, copies=1, handles=2, env=env, max_paths=12000,
